@@ -78,6 +78,18 @@ def hostile_modules(draw, pep701=True):
             raw = draw(hostile_str(3)).replace('{', '').replace('}', '')
             spec = fliteral(raw).replace('\\', '') if not pep701 else fliteral(raw)
             lines.append('v%d = f"{name:%s{width}}"' % (i, spec))
+        elif k == 8 and draw(st.booleans()):
+            # arithmetic whose operands are unary operators over non-literals, next to literals (folder operand test)
+            atoms = ['__import__("%s")' % CANARY, 'len("ab")', 'x', 'open("%s", "w").write("x")' % CANARY, '__import__("%s").x' % CANARY, 'f()', '(lambda: 1)()']
+            def operand():
+                r = draw(st.integers(0, 5))
+                if r == 0:
+                    return draw(st.sampled_from(['1', '2.5', 'True', '10', '0x10', '3j']))
+                if r == 1:
+                    return '-' + draw(st.sampled_from(['1', '2.5', '10']))
+                return draw(st.sampled_from(['-', '~', '+', 'not ', '- -', '-~'])) + draw(st.sampled_from(atoms))
+            op = draw(st.sampled_from(['+', '-', '*', '%', '<<', '|', '&', '^', '//', '>>', '@']))
+            lines.append('v%d = %s %s %s' % (i, operand(), op, operand()))
         elif k == 8:
             # numeric payloads for the folder
             lines.append('v%d = %s' % (i, draw(st.sampled_from(['1 .__class__', '(1).real + 2', '1 + 2 * 3', 'True + True', '2 ** 8 - 1', '1 if 2 else 3',
